@@ -52,7 +52,9 @@ func c09Atom(p *prng.R, b tspace.Base) ref.Atom {
 	case "boolean":
 		return ref.Bool(p.Bool())
 	case "string":
-		return ref.Str([]string{"", "a", "é\"\\", "set", "map", "uuid", "x y", " "}[p.Intn(8)])
+		// incl. control characters (JSON needs \uXXXX escapes for them), DEL, a line
+		// separator and a character outside the basic plane
+		return ref.Str([]string{"", "a", "é\"\\", "set", "map", "uuid", "x y", " ", "\x01", "tab\tnl\n", "\v\x7f", "\u2028", "\U0001F600", "a\x00b"}[p.Intn(14)])
 	}
 	return ref.UUID(p.UUID())
 }
